@@ -1,5 +1,7 @@
 """C01 - docstring round trip (ReST / numpydoc / Google): parse.docstring(emit.docstring(ir)) describes the same interface."""
 from harness.rt import *  # noqa: F401,F403
+from harness import gridrun
+from harness.gridrun import grid_ob  # noqa: F401  (obligation bodies call H.grid_ob)
 from harness.rt import mk_ob
 from lib.domain import SHAPES
 
@@ -77,4 +79,5 @@ def obligations(tier, seed):
                 obs.append(ob)
         for sid in (["p1_int_d", "p1_ret"] if tier == "quick" else QUICK):
             obs.append(mk_ob("rt", "rt", kind, sid, {"emit_default_doc": False}, tier, funcs=FUNCS, pl=2, dr=2))
+    obs += gridrun.obligations('C01', tier, FUNCS)
     return obs
